@@ -462,7 +462,36 @@ def r10_constructor_siblings(ctx):
     ctx.ob("R09.10", "constructors:role-flag", okrole, "", "is_client is true in new_client and false in new_server" if okrole else "is_client is not the constant true / false in the two constructors")
 
 
+def r11_only_write_locks_across_transport_writes(ctx):
+    """while a task waits for the transport to take its bytes it holds the two locks that order writers (Session.buffer, taken by
+    its caller, and Session.writer) and nothing else: a guard of any other session lock kept across that wait blocks the receive
+    loop as soon as it needs that lock (a padding push needs `padding` exclusively), and a receive loop that is parked never sees
+    the Alert / EOF that should end the session"""
+    from engine.anl.locks import Held, lock_fields
+    body = co(ctx, "R09.11", S + "write_with_padding")
+    if body is None:
+        return
+    names = {cls: n[0] for cls, n in lock_fields(ctx.P).items()}
+    may = Held(body, must=False)
+    ws = [c for c in body.calls() if (c.norm or "").endswith(("AsyncWriteExt::write_all", "AsyncWriteExt::flush", "AsyncWriteExt::write", "AsyncWriteExt::write_buf"))]
+    if not ctx.floor("R09.11", "transport writes in write_with_padding", len(ws), 4):
+        return
+    bad = None
+    for w in ws:
+        held = {names.get(cls, cls) for (l, m, cls) in may.held_at_call(w.bb)}
+        extra = sorted(h for h in held if h not in ("Session.writer", "Session.buffer"))
+        if extra and bad is None:
+            bad = (w, extra)
+    ctx.ob("R09.11", "write_with_padding:only-writer-locks-held-across-transport-writes", bad is None, (bad[0] if bad else ws[0]).site,
+           "at each of the %d transport writes only Session.writer (and the caller's Session.buffer) can be held" % len(ws) if bad is None else
+           "a guard of %s is still alive at a transport write: when that write is stuck on a peer that stopped reading, the receive loop blocks on the same lock at the next frame that needs it and never processes "
+           "the Alert / EOF that follows — the session is never closed and nobody is released" % bad[1])
+
+
 def run(ctx):
+    r11_only_write_locks_across_transport_writes(ctx)
+    from . import C11 as _C11o
+    _C11o.r3_open_order(ctx)      # a stream is in the tables before its SYN is written: a close() that lands during that write drains it like any other
     r10_constructor_siblings(ctx)
     from . import effects
     effects.check_property(ctx, "C09")    # R09.E: no operation on shared protocol state outside the reviewed table
